@@ -1,4 +1,5 @@
 import NLE.Proofs.LifeInv
+import NLE.Gen.Shape
 /-!
 # C18 — Status and metrics tell the truth (coherence, documented states, STOPPED after a stop, transition chain)
 
@@ -73,5 +74,11 @@ theorem transition_chain {x x' : Inst} {f t : Nat} (h : stepTrans x f t = .ok x'
         split at h; · cases h
         cases h; exact ⟨hf, ht.symm, Or.inr (Or.inr ht)⟩
       · cases h
+
+/-- AST fact: `Status()` assembles its snapshot under the election's read lock; every transition writes the flag, the
+    state, the token and the leader id inside one critical section under the write lock (C20's lock table), so a
+    snapshot never mixes the two sides of a transition — also when it is taken while one is under way (checked by
+    `snap` samples issued from inside the library's critical sections, clause `C18/snapshot-incoherent`). -/
+theorem status_locked_shape : Gen.statusUnderReadLock = true := by decide
 
 end NLE.Theorems.C18
